@@ -497,6 +497,13 @@ def cut_expansions(history, rng, per_call):
                     cut[4 if step[0] == 'Archive' else 3] = k
                     steps = history['steps'][:p] + [cut, plain] + history['steps'][p + 1:p + 3]
                     out.append(dict(setup=history['setup'], steps=steps))
+                # the same with a storage ERROR instead of a crash (negative k): ZooKeeper refuses the
+                # k-th write and keeps serving; an archiver that gives up there has stopped at that point
+                for k in sorted({1} | ({rng.choice(ks)} if ks else set())) if total else []:
+                    cut = list(plain)
+                    cut[4 if step[0] == 'Archive' else 3] = -k
+                    steps = history['steps'][:p] + [cut, plain] + history['steps'][p + 1:p + 3]
+                    out.append(dict(setup=history['setup'], steps=steps))
             ad.run_steps(world, [step])
     return out
 
